@@ -352,7 +352,7 @@ def match_exception(exceptions, kind, name, mname, ref, f, rem, add):
     return None
 
 
-def model_families(P, rep, rule="SIB.models", kinds=None, method_filter=None):
+def model_families(P, rep, rule="SIB.models", kinds=None, method_filter=None, floor=14):
     rep.rule(rule, "the member functions of sibling model classes (same kind and name under the area-feature namespaces "
                    "ContinentalPlate/OceanicPlate/MantleLayer, resp. under SubductingPlate/Fault) are identical in normal form "
                    "(namespaces abstracted, locals alpha-renamed, casts and debug assertions dropped); every difference must be in "
@@ -370,6 +370,6 @@ def model_families(P, rep, rule="SIB.models", kinds=None, method_filter=None):
             if sum(1 for f in group if f in members) >= 2:
                 nfam += 1
                 compare_family(P, rep, rule, kind, name, members, group, exceptions, method_filter, stats)
-    rep.floor(rule, nfam, 14, "sibling groups compared")
+    rep.floor(rule, nfam, floor, "sibling groups compared")
     rep.analysed["sibling_functions_compared"] = stats["functions"]
     return fam
